@@ -137,7 +137,7 @@ def _parse_body(r, body):
             else:
                 r.unsat_covers.append(c)
         elif c.status == "FAILURE":
-            if c.desc.startswith(DEVONLY_PREFIXES) and r.h.cls == "crash":
+            if c.desc.startswith(DEVONLY_PREFIXES):
                 r.devonly.append(c)
             else:
                 r.failed.append(c)
@@ -289,7 +289,14 @@ def run_all(scratch, harnesses, seed=0, max_parallel=None, mem_budget_gb=48, log
             logpath = os.path.join(scratch, "group%d.log" % idx)
             log("  group %d: %s/%s %s" % (idx, crate, cls, ",".join(h.name for h in g)))
             res, cerr = run_group(repo_dir, crate, g, td, cls, logpath)
-            shutil.rmtree(td, ignore_errors=True)
+            keep = False
+            for r in res:
+                if r.status == "fail":
+                    from . import cex
+                    r.goto_file = cex.goto_file_from_log(r.raw)
+                    keep = True
+            if not keep:
+                shutil.rmtree(td, ignore_errors=True)
             with lock:
                 results.extend(res)
         finally:
